@@ -64,19 +64,19 @@ var c10rConf = c10Config{
 // others that differ from it in exactly the datum a shared scratch object
 // would carry over: name, type, client address, ASN.
 var c10rPool = []c10Query{
-	0: {Client: "10.0.0.1", Name: "clean.test.", QType: dns.TypeA, Proto: "dns"},                // served
-	1: {Client: "10.0.0.1", Name: "gblocked.test.", QType: dns.TypeA, Proto: "dns"},             // global name
-	2: {Client: "10.0.0.1", Name: "g6.test.", QType: dns.TypeA, Proto: "dns"},                   // served ($dnstype=AAAA only)
-	3: {Client: "10.0.0.1", Name: "g6.test.", QType: dns.TypeAAAA, Proto: "dns"},                // global name+type
-	4: {Client: "198.51.100.200", Name: "clean.test.", QType: dns.TypeA, Proto: "dns"},          // global subnet
-	5: {Client: "10.0.0.1", Name: "pblocked.test.", QType: dns.TypeA, Proto: "dns"},             // profile name
-	6: {Client: "10.0.0.1", Name: "pblocked.test.", QType: dns.TypeA, Proto: "dns", Anonymous: true}, // served: no profile
-	7: {Client: "203.0.113.5", Name: "clean.test.", QType: dns.TypeA, Proto: "dns"},             // profile subnet
-	8: {Client: "203.0.113.130", Name: "clean.test.", QType: dns.TypeA, Proto: "dns"},           // served: allowed beats blocked
-	9: {Client: "10.0.0.2", ASN: 64500, Name: "clean.test.", QType: dns.TypeA, Proto: "dot"},    // profile ASN
-	10: {Client: "10.0.0.3", ASN: 64501, Name: "p6.test.", QType: dns.TypeAAAA, Proto: "dot"},   // profile name+type (allowed ASN does not lift it)
-	11: {Client: "10.0.0.3", ASN: 64501, Name: "p6.test.", QType: dns.TypeA, Proto: "dot"},      // served
-	12: {Client: "10.0.0.1", Name: "ok.gblocked.test.", QType: dns.TypeA, Proto: "dns"},         // served: exception
+	0:  {Client: "10.0.0.1", Name: "clean.test.", QType: dns.TypeA, Proto: "dns"},                     // served
+	1:  {Client: "10.0.0.1", Name: "gblocked.test.", QType: dns.TypeA, Proto: "dns"},                  // global name
+	2:  {Client: "10.0.0.1", Name: "g6.test.", QType: dns.TypeA, Proto: "dns"},                        // served ($dnstype=AAAA only)
+	3:  {Client: "10.0.0.1", Name: "g6.test.", QType: dns.TypeAAAA, Proto: "dns"},                     // global name+type
+	4:  {Client: "198.51.100.200", Name: "clean.test.", QType: dns.TypeA, Proto: "dns"},               // global subnet
+	5:  {Client: "10.0.0.1", Name: "pblocked.test.", QType: dns.TypeA, Proto: "dns"},                  // profile name
+	6:  {Client: "10.0.0.1", Name: "pblocked.test.", QType: dns.TypeA, Proto: "dns", Anonymous: true}, // served: no profile
+	7:  {Client: "203.0.113.5", Name: "clean.test.", QType: dns.TypeA, Proto: "dns"},                  // profile subnet
+	8:  {Client: "203.0.113.130", Name: "clean.test.", QType: dns.TypeA, Proto: "dns"},                // served: allowed beats blocked
+	9:  {Client: "10.0.0.2", ASN: 64500, Name: "clean.test.", QType: dns.TypeA, Proto: "dot"},         // profile ASN
+	10: {Client: "10.0.0.3", ASN: 64501, Name: "p6.test.", QType: dns.TypeAAAA, Proto: "dot"},         // profile name+type (allowed ASN does not lift it)
+	11: {Client: "10.0.0.3", ASN: 64501, Name: "p6.test.", QType: dns.TypeA, Proto: "dot"},            // served
+	12: {Client: "10.0.0.1", Name: "ok.gblocked.test.", QType: dns.TypeA, Proto: "dns"},               // served: exception
 }
 
 // c10rScenario is one set of concurrent tasks; every task sends its requests
